@@ -14,7 +14,7 @@ RULE = ("(a) synthetic PPOResults (every second one followed in the same process
         "action; distinct by result digest x observation index")
 MIN_NONTRIVIAL = {"quick": 200, "thorough": 5000}
 DECIDING = ["deterministic_actions_compared", "sampled_actions_compared"]
-ASSUMPTIONS = ["STATE_INDEPENDENT_STD=True only (the property's quantifier)", "tolerance 1e-4 of the action range: both sides are float32 evaluations of the same network, but jit-fused vs eager evaluation of a deep perturbed network differs by ~1e-5 relative (observed 2.9e-5 on a depth-4 gelu net)"]
+ASSUMPTIONS = ["STATE_INDEPENDENT_STD=True only (the property's quantifier)", "tolerance 2e-5 of the action range: policy and reference are both jit-compiled float32 evaluations of the same network (an eager reference differed by up to 2.9e-5 relative from the jitted policy on a depth-4 gelu net, so the reference is compiled too)"]
 LEVEL = "exploration"
 WORKERS = 10
 
@@ -35,6 +35,20 @@ def reference_action(network, params, obs, norm, low, high, squash, rng=None):
     return onp.asarray(a), onp.asarray(x)
 
 
+def reference_action_j(network, params, obs, norm, low, high, squash, rng=None):
+    """traceable version of reference_action (both sides are then compiled by XLA; eager-vs-jit rounding does not enter)"""
+    import jax.numpy as jnp
+
+    x = jnp.asarray(obs, jnp.float32)
+    if norm is not None:
+        mean, var, clip = norm
+        x = jnp.clip((x - mean) / jnp.sqrt(var + 1e-8), -clip, clip)
+    pi, _ = network.apply(params, x)
+    a = pi.mean() if rng is None else pi.sample(seed=rng)
+    a = 0.5 * (jnp.tanh(a) + 1.0) * (high - low) + low if squash else jnp.clip(a, low, high)
+    return a, x
+
+
 def compare_policy(policy, network, params, norm, low, high, squash, obs_list, stats, rnd, tag):
     import jax
 
@@ -43,22 +57,24 @@ def compare_policy(policy, network, params, norm, low, high, squash, obs_list, s
     get = jax.jit(lambda o: policy.get_action(o))
     get_s = jax.jit(lambda o, k: policy.get_action(o, k))
     rng_range = onp.asarray(high - low, float)
+    ref_j = jax.jit(lambda o: reference_action_j(network, params, o, norm, low, high, squash))
+    ref_js = jax.jit(lambda o, k: reference_action_j(network, params, o, norm, low, high, squash, rng=k))
     for i, obs in enumerate(obs_list):
-        ref, xnorm = reference_action(network, params, obs, norm, low, high, squash)
+        ref, xnorm = (onp.asarray(x_) for x_ in ref_j(obs))
         got = onp.asarray(get(obs))
         stats["deterministic_actions_compared"] += 1
         clipped = norm is not None and (onp.abs(xnorm) >= norm[2] - 1e-6).any()
         nontriv += int(clipped)
-        if got.shape != ref.shape or (onp.abs(got - ref) > 1e-4 * rng_range + 1e-5).any():
+        if got.shape != ref.shape or (onp.abs(got - ref) > 2e-5 * rng_range + 3e-6).any():
             V.append(dict(clause="deterministic_action_differs_from_actor", obs_index=i, policy=got.tolist(), actor=ref.tolist(), clip_active=bool(clipped), where=tag))
             break
         if i % 2 == 0:
             k = jax.random.PRNGKey(rnd.randrange(1 << 30))
-            refs, _ = reference_action(network, params, obs, norm, low, high, squash, rng=k)
+            refs = onp.asarray(ref_js(obs, k)[0])
             gots = onp.asarray(get_s(obs, k))
             stats["sampled_actions_compared"] += 1
             nontriv += 1
-            if (onp.abs(gots - refs) > 1e-4 * rng_range + 1e-5).any():
+            if (onp.abs(gots - refs) > 2e-5 * rng_range + 3e-6).any():
                 V.append(dict(clause="sampled_action_differs_from_actor_gaussian", obs_index=i, policy=gots.tolist(), actor=refs.tolist(), where=tag))
                 break
     return V, nontriv
@@ -113,6 +129,8 @@ def synthetic_case(rnd, nrng, stats, force=None):
     high = jnp.asarray(nrng.uniform(0.2, 3, act_dim), jnp.float32)
     mean = (nrng.uniform(-5, 5, obs_dim) * rnd.choice([1, 1, 100])).astype(onp.float32)
     std = nrng.uniform(0.1, 3, obs_dim).astype(onp.float32)
+    if rnd.random() < 0.5:  # a near-constant observation component (bias / set-point feature): training variance far below 1e-6
+        std[rnd.randrange(obs_dim)] = onp.float32(10.0 ** rnd.uniform(-6, -3.5))
     aux = {"act_scaling": rl.SquashState(low=jnp.tile(low[None], (3, 1)), high=jnp.tile(high[None], (3, 1)), squash=squash)}
     norm = None
     if normalize:
